@@ -8,8 +8,9 @@
 
    - [vop]: printable narrow and wide glyphs, CR, LF, IND, RI, NEL, CUU CUD CUF CUB CNL CPL
      CHA HPA VPA HPR VPR CUP HVP, ED, EL, ECH, ICH, DCH, IL, DL, SU, SD, DECSTBM, DECSC, DECRC,
-     entering/leaving the alternate screen (1049) and SGR; a numeric parameter is [Om]
-     (omitted) or [Ex n] (explicit, zero included).
+     entering/leaving the alternate screen (1049), SGR and hyperlinks (OSC 8 ; params ; URI:
+     params without ';', the URI everything after the second ';' - it may contain ';', ':'
+     and '='); a numeric parameter is [Om] (omitted) or [Ex n] (explicit, zero included).
    - [enc o]: the sequence the parser delivers for the operation ([TCsi [] [[n]] final] ...);
      omitted, zero and explicit parameters are three different encodings and all are covered.
    - [run_spec]: the reference terminal; [None] exactly where the property leaves behaviour
@@ -24,7 +25,8 @@
    Proved at full strength: [term_refines_vt] for all operations of the vocabulary (one
    simulation lemma per operation: sim_print, sim_cr, sim_lf, sim_ind, sim_ri, sim_nel,
    sim_cuu .. sim_vpr, sim_cup, sim_ed, sim_el, sim_ech, sim_ich, sim_dch, sim_il, sim_dl,
-   sim_su, sim_sd, sim_decstbm, sim_decsc, sim_decrc, sim_alt_on, sim_alt_off, SGR), for all
+   sim_su, sim_sd, sim_decstbm, sim_decsc, sim_decrc, sim_alt_on, sim_alt_off, SGR,
+   sim_link_osc), for all
    sizes from 2x2 up to 65535x65535 (the emulator clamps parameters to 16 bits as VTs do;
    the clamp is invisible up to that size), for every prefix of every history. *)
 From Vx Require Import base.Prelude base.ListX model.Colour model.Sgr model.Term model.TermCheck
@@ -55,6 +57,32 @@ Theorem C06_sgr : forall cs st, forallb sgrc_ok cs = true ->
   term_sgr (flat_map enc_sgrc cs) st = Ok (spec_sgr st cs).
 Proof. exact sim_sgr_pen. Qed.
 Print Assumptions C06_sgr.
+
+(* hyperlinks: whatever the URI contains - further ';' included - the pen's link is the whole
+   URI and the link parameters are the text between the first two ';' *)
+Theorem C06_link : forall (t : term) (ps uri : text), no_semicolon ps = true ->
+  update t (enc (Link ps uri)) = TOk (set_pen t (mkStyle (spen (t_pen t)) uri ps)).
+Proof. exact sim_link_osc. Qed.
+Print Assumptions C06_link.
+
+(* non-vacuity: a target with ';', ':' and '=' ("a;v=2:b;c", params "id=x:k=v") is inside the
+   vocabulary and the glyph printed under it carries the whole target on both sides *)
+Example C06_example_link :
+  let uri := [97; 59; 118; 61; 50; 58; 98; 59; 99] in
+  let ps := [105; 100; 61; 120; 58; 107; 61; 118] in
+  let ops := [Link ps uri; Print [97] 1; Link [] []; Print [98] 1] in
+  forallb vop_ok ops = true /\
+  match run_spec (vt_init 3 2) ops, term_start 3 2 with
+  | Some v, TOk t0 =>
+      match run_term t0 ops with
+      | TOk t => vt_eqb (abs t) v = true /\
+                 nth 0 (nth 0 (v_grid v) []) (Blank 0) = Glyph [97] 1 (mkStyle pen0 uri ps) /\
+                 nth 1 (nth 0 (v_grid v) []) (Blank 0) = Glyph [98] 1 style0
+      | _ => False
+      end
+  | _, _ => False
+  end.
+Proof. vm_compute. repeat split; reflexivity. Qed.
 
 (* non-vacuity: a history with a wide glyph at the right edge, wrapping, a scrolling region,
    insert/delete with omitted, zero and huge parameters, erase with a coloured background and
